@@ -56,7 +56,7 @@ MATCH_SAMPLE_CAP = 12
 ROUND_REPLAY_CAP = 10
 
 MATCH_KINDS = ("match-cmp", "match-regex", "match-expr", "match-and-first", "match-and-second", "match-or-first", "match-or-second",
-               "match-when-sibling", "match-child", "match-child-await", "match-grandchild")
+               "match-when-sibling", "match-child", "match-child-await", "match-grandchild", "match-when-else", "match-when-or-else")
 ERR_STMT = {
     "bad-expr": ['$e = "t" + 3'],
     "unknown-var": ["$e = $nope + 1"],
@@ -78,11 +78,30 @@ ERR_STMT = {
     "match-child": ["start helper_m", "match M(x=$nope.value)"],
     "match-child-await": ["start helper_m", "start helper_m2", 'match M(x=regex("("))'],
     "match-grandchild": ["start helper_g", "match M(x=less_than(3))"],
+    # further error sources of ordinary statements (value errors of other operators, statements other than assignments)
+    "div-zero": ["$e = 1 / 0"],
+    "index-range": ["$l = [1, 2]", "$e = $l[5]"],
+    "priority-range": ["priority 2.0"],
+    "return-bad-expr": ['return "t" + 3'],
+    "log-bad-expr": ["log 1 / 0"],
+    # errors that are NOT raised as one of the Colang exception classes (AssertionError of FlowState.get_event) / ColangSyntaxError at run time
+    "ref-bad-event-match": ["start helper_h as $h", "match $h.Nope()"],
+    "ref-bad-event-send": ["start helper_h as $h", "send $h.Nope()"],
+    "action-bad-event": ['send UtteranceBotAction(script="a").Nope()'],
+    # the error is raised while a pattern-failure handler (catch label) is installed: in the pattern of a `when` (slide phase) ...
+    "when-action-bad-arg": ['when UtteranceBotAction(script="t" + 3)', "  $e = 1", "else", "  $e = 2"],
+    "when-flow-bad-arg": ['when helper_w(p="t" + 3)', "  $e = 1", "or when NeverW()", "  $e = 2", "else", "  $e = 3"],
+    # ... or while matching, with an `else` branch the flow could (wrongly) continue in
+    "match-when-else": ["when M(x=$nope.value)", "  $e = 1", "else", "  $e = 2"],
+    "match-when-or-else": ["when M(x=less_than(3))", "  $e = 1", "or when NeverD()", "  $e = 2", "else", "  $e = 3"],
 }
 ERR_FLOWS = {
     "match-child": ["flow helper_m", "  match M()", "  match NeverH()", ""],
     "match-child-await": ["flow helper_m", "  match M()", "  match NeverH()", "", "flow helper_m2", "  match M(x=\"str\")", "  match NeverH()", ""],
     "match-grandchild": ["flow helper_m", "  match M()", "  match NeverH()", "", "flow helper_g", "  start helper_m", "  match M() and M(x=\"str\")", "  match NeverH()", ""],
+    "ref-bad-event-match": ["flow helper_h", "  match NeverHH()", ""],
+    "ref-bad-event-send": ["flow helper_h", "  match NeverHH()", ""],
+    "when-flow-bad-arg": ["flow helper_w $p", "  match NeverHW()", ""],
 }
 M_EVENT = {"type": "M", "x": "str"}
 
@@ -113,10 +132,38 @@ def stmt_pool(rng, i):
     return [f'start UtteranceBotAction(script="hi {i}")'], [], False, k
 
 
-def build_program(stmts, inject_at, kind, mode, nested):
-    """Colang source + event script for one case."""
+def observer_flows(names, style):
+    """one observer per external event name, each in its own interaction loop. style "direct": `match X` / `send SeenX`;
+    style "sub": the observer reacts through a sub-flow (its reaction needs internal events of the same processing round)"""
+    src = []
+    for n, name in enumerate(names):
+        if style == "sub":
+            src += ["@active", f'@loop("obs{n}")', f"flow obs_{name}", f"  match {name}()", f"  await react_{n}", "",
+                    f"flow react_{n}", f"  send Seen{name}()", ""]
+        else:
+            src += ["@active", f'@loop("obs{n}")', f"flow obs_{name}", f"  match {name}()", f"  send Seen{name}()", ""]
+    return src
+
+
+def build_program(stmts, inject_at, kind, mode, nested, opts=None):
+    """Colang source + event script for one case.
+
+    opts (all optional; the defaults give the plain program):
+      at_instance K >= 2   the erroneous statement is guarded by a global instance counter: the first K-1 instances of the (activated)
+                           flow run to their end and restart, the error appears in the K-th instance (and in every later one)
+      relap True           after the error (and `Next`) the script walks to the erroneous statement a second time ("later events" that
+                           are the SAME events again; an activated flow that failed after its first wait has been restarted and fails again)
+      obs_first True       the observer flows are defined (and activated) BEFORE the faulty flow
+      obs_style "sub"      observers react through a sub-flow
+    """
+    opts = opts or {}
+    at_instance = opts.get("at_instance", 1) if mode in ("active", "launcher") else 1
+    if not any(w for (_l, _e, w, _k) in stmts):
+        at_instance = 1  # a flow without any waiting statement never completes a pass (immediate-finish guard): no later instance
     body, events, waits_before = [], [], 0
     subs = []
+    if at_instance > 1:
+        body += ["global $cnt", "if $cnt == None", "  $cnt = 0", "$cnt = $cnt + 1"]
     for idx, (lines, evs, waits, sk) in enumerate(stmts):
         if idx == inject_at:
             break
@@ -130,17 +177,31 @@ def build_program(stmts, inject_at, kind, mode, nested):
         err_lines = ["if True"] + ["  " + l for l in err_lines]
     elif nested == "while":
         err_lines = ["$n = 0", "while $n < 1"] + ["  " + l for l in err_lines] + ["  $n = $n + 1"]
+    if at_instance > 1:
+        err_lines = [f"if $cnt >= {at_instance}"] + ["  " + l for l in err_lines]
     body += err_lines
     for idx, (lines, evs, waits, sk) in enumerate(stmts):
         if idx >= inject_at:
             body += lines
             if sk == "await":
                 subs.append(lines[0].split()[1])
-    script = [{"type": "Boot"}] + events
-    if kind in MATCH_KINDS:
-        script.append(dict(M_EVENT))
+    full_lap = [e for (_l, evs, _w, _k) in stmts for e in evs]
+    walk = [dict(e) for e in events] + ([dict(M_EVENT)] if kind in MATCH_KINDS else [])
+    script = [{"type": "Boot"}]
+    for _ in range(at_instance - 1):
+        script += [dict(e) for e in full_lap]
+    script += walk
     script.append({"type": "Next"})
+    if opts.get("relap"):
+        script += [dict(e) for e in walk] + [{"type": "Next"}]
+    names = []
+    for e in script:
+        if e["type"] not in names:
+            names.append(e["type"])
+    obs_src = observer_flows(names, opts.get("obs_style", "direct"))
     src = []
+    if opts.get("obs_first"):
+        src += obs_src
     if mode == "active":
         src.append("@active")
     src.append("flow faulty")
@@ -149,12 +210,8 @@ def build_program(stmts, inject_at, kind, mode, nested):
     for s in subs:
         src += [f"flow {s}", f"  match S{s[3:]}()", ""]
     src += ERR_FLOWS.get(kind, [])
-    names = []
-    for e in script:
-        if e["type"] not in names:
-            names.append(e["type"])
-    for n, name in enumerate(names):
-        src += ["@active", f'@loop("obs{n}")', f"flow obs_{name}", f"  match {name}()", f"  send Seen{name}()", ""]
+    if not opts.get("obs_first"):
+        src += obs_src
     if mode == "launcher":
         src += ["@active", "flow launcher", "  activate faulty", "  match NeverL()", ""]
     src.append("flow main")
@@ -163,7 +220,28 @@ def build_program(stmts, inject_at, kind, mode, nested):
     src.append("  match Never()")
     meta = {"mode": mode, "kind": kind, "phase": "match" if kind in MATCH_KINDS else "slide", "waits_before": waits_before,
             "inject_at": inject_at, "nested": nested, "expect_error": True}
+    if at_instance > 1:
+        meta["at_instance"] = at_instance
+    for k in ("relap", "obs_first", "obs_style"):
+        if opts.get(k):
+            meta[k] = opts[k]
     return {"kind": "prog", "src": "\n".join(src) + "\n", "events": script, "meta": meta}
+
+
+def random_opts(rng, mode):
+    """a non-default combination of the history / observer options of `build_program`"""
+    while True:
+        o = {}
+        if mode in ("active", "launcher") and rng.random() < 0.5:
+            o["at_instance"] = rng.choice([2, 2, 3])
+        if rng.random() < 0.5:
+            o["relap"] = True
+        if rng.random() < 0.4:
+            o["obs_first"] = True
+        if rng.random() < 0.4:
+            o["obs_style"] = "sub"
+        if o:
+            return o
 
 
 QUICK_BODIES = [
@@ -237,6 +315,15 @@ def gen_cases(rng, tier):
                     continue  # the launcher itself would fail while starting (it is related to the faulty flow)
                 nested = rng.choice([None, None, None, "if", "while"]) if kind not in MATCH_KINDS else rng.choice([None, None, "if"])
                 cases.append(build_program(stmts, pos, kind, mode, nested))
+        # the same program with a longer history / other observers: error only in the K-th instance of the activated flow, the walk to
+        # the error repeated after it, observers ahead of the faulty flow / reacting through a sub-flow (every position, rotating kinds)
+        for pos in range(n + 1):
+            for kind in dict.fromkeys([kinds[(p * 7 + pos * 3 + 1) % len(kinds)], rng.choice(kinds)]):
+                opts = random_opts(rng, mode)
+                if mode == "launcher" and pos == 0 and opts.get("at_instance", 1) == 1:
+                    continue
+                nested = None if opts.get("at_instance") else rng.choice([None, None, "if"])
+                cases.append(build_program(stmts, pos, kind, mode, nested, opts))
     return cases
 
 
@@ -316,6 +403,7 @@ def install():
             return nh
         except Exception as e:  # noqa
             rec["exc"] = type(e).__name__
+            st["errs"].append([flow_state.uid, flow_config.id, "slide", type(e).__name__])
             raise
         finally:
             if rnd is not None and _R.round is rnd:
@@ -369,6 +457,8 @@ def install():
                 raise Budget("internal events")
             if event.name == "ColangError":
                 st["colang_errors"] += 1
+            elif event.name == "FlowFailed":
+                st["failed_uids"].append(event.arguments.get("source_flow_instance_uid"))
         rnd = _R.round
         if rnd is None:
             return O["pie"](state, event)
@@ -435,6 +525,8 @@ def install():
         try:
             s = O["score"](state, flow_state, head, event)
         except Exception as e:  # noqa
+            if st is not None:
+                st["errs"].append([flow_state.uid, flow_state.flow_id, "match", type(e).__name__])
             if st is not None and st.get("scan") is not None:
                 st["scan"]["scores"].append([flow_state.uid, head.uid, "err"])
             if _R.round is not None:
@@ -539,7 +631,7 @@ def run_impl(case):
     signal.signal(signal.SIGVTALRM, _vt_alarm)
     for ev in case["events"]:
         st = {"slides": 0, "moves": 0, "ievents": 0, "colang_errors": 0, "rtc_exc": [], "samples": [], "scans": [], "scan": None,
-              "over_bound": [], "max_iter_ratio": 0.0, "budget": 10 ** 9, "rounds": []}
+              "over_bound": [], "max_iter_ratio": 0.0, "budget": 10 ** 9, "rounds": [], "errs": [], "failed_uids": []}
         st["budget"] = BUDGET_FACTOR * (sum(len(p) for p in progs.values()) + 10)
         _R.st = st
         call = {"event": ev["type"], "out": [], "pe_exc": None, "budget_hit": None}
@@ -557,6 +649,22 @@ def run_impl(case):
             _R.st = None
             _R.cur = None
         call.update({k: st[k] for k in ("slides", "moves", "ievents", "colang_errors", "rtc_exc", "max_iter_ratio")})
+        # every flow INSTANCE in which a statement raised: what became of it by the end of this call
+        call["errs"] = len(st["errs"])
+        call["err_types"] = sorted({e[3] for e in st["errs"]})
+        call["unfailed"] = []
+        if not (call["budget_hit"] or call["pe_exc"] or state is None):
+            seen_uid = set()
+            for uid, fid, phase, _t in st["errs"]:
+                if uid in seen_uid:
+                    continue
+                seen_uid.add(uid)
+                fs = state.flow_states.get(uid)
+                status = fs.status.name if fs is not None else "REMOVED"
+                nheads = len(fs.heads) if fs is not None else 0
+                announced = uid in st["failed_uids"]
+                if status not in ("STOPPED", "REMOVED") or nheads or not announced:
+                    call["unfailed"].append({"flow": fid, "phase": phase, "status": status, "heads": nheads, "flow_failed_event": announced})
         call["budget"] = BUDGET_FACTOR * (sum(len(p) for p in progs.values()) + 10) if progs else None
         obs["calls"].append(call)
         room = SLIDE_SAMPLE_CAP - len(obs["samples"])
@@ -898,6 +1006,16 @@ def oracle(case, obs):
     if meta.get("expect_error") and meta["kind"] != "abort":
         if sum(c["colang_errors"] for c in obs["calls"]) == 0:
             return f"no ColangError event was produced for the injected {meta['kind']} error"
+    for c in obs["calls"]:
+        # "fails only that flow": the instance in which the statement raised is failed (stopped, no head left, FlowFailed processed)
+        # by the end of the call that processed the event
+        for u in c.get("unfailed", []):
+            return (f"flow {u['flow']} raised a runtime error ({u['phase']} phase) while processing {c['event']} but was not failed in that call: "
+                    f"status {u['status']}, {u['heads']} head(s) left, FlowFailed event processed: {u['flow_failed_event']}")
+        # "is reported as a ColangError event": one report per raised error, processed before the call returns
+        if c.get("errs", 0) > c["colang_errors"]:
+            return (f"{c['errs']} runtime error(s) ({', '.join(c.get('err_types', []))}) were raised while processing {c['event']} but only "
+                    f"{c['colang_errors']} ColangError event(s) were processed in that call")
     return None
 
 
@@ -939,6 +1057,13 @@ def tags(case, obs):
     t = ["kind:prog", "mode:" + meta["mode"], "err:" + meta["kind"], "phase:" + meta["phase"], "waits-before:" + str(min(meta["waits_before"], 3))]
     if meta.get("nested"):
         t.append("nested:" + meta["nested"])
+    if meta.get("at_instance"):
+        t.append("error-at-instance:" + str(meta["at_instance"]))
+    for k in ("relap", "obs_first"):
+        if meta.get(k):
+            t.append("opt:" + k)
+    if meta.get("obs_style"):
+        t.append("obs-style:" + meta["obs_style"])
     if meta.get("quick"):
         t.append("quick:" + meta["quick"])
     if "calls" in obs:
@@ -952,6 +1077,10 @@ def tags(case, obs):
             if r["exc"]:
                 t.append("slide-exc:" + r["exc"])
                 break
+        ne = sum(c.get("errs", 0) for c in obs["calls"])
+        t.append("errors-raised:" + (str(ne) if ne < 3 else "3+"))
+        if sum(1 for c in obs["calls"] if c.get("errs", 0)) > 1:
+            t.append("errors-in-several-calls")
         if not all(obs["py_acyclic"][k] or obs["py_ranked"][k] for k in obs["py_acyclic"]):
             t.append("has-cyclic-flow")
         mx = max([c["slides"] / c["budget"] for c in obs["calls"] if c["budget"]] or [0])
